@@ -31,8 +31,24 @@ def args_for(c, view):
 CTXGET = "CTX.with(|c| c.get()).unwrap()"
 
 
-def flavours(c):
-    """(flavour name, rust expression producing a String) for one access"""
+def flavours(c, dyn=False):
+    """(flavour name, rust expression producing a String) for one access.
+    dyn: the dynamic_load build, where the string / display macros return futures"""
+    out = _flavours(c)
+    if not dyn:
+        return out
+    import re
+    res = []
+    for name, expr in out:
+        if name == "const_chain":
+            continue
+        # <macro>!(...).to_string()  ->  block_on(<macro>!(...)).to_string()   for the string / display macros
+        expr = re.sub(r"((?:td|tu|t)_(?:string|display))!\((.*?)\)\.to_string\(\)", r"futures::executor::block_on(\1!(\2)).to_string()", expr)
+        res.append((name, expr))
+    return res
+
+
+def _flavours(c):
     L = rl(c["locale"])
     rest = c["rest"]
     scope = c["scope"]
@@ -75,33 +91,44 @@ def check(run):
     run.add_mc("Access (scoping machine + access matrix)", res)
     project = json.loads(res["tagged"]["PROJECT"][0])
     accesses = [json.loads(c) for c in sorted(set(res["tagged"]["CASE"]))]
-    calls, meta = [], {}
-    for a in accesses:
-        for name, expr in flavours(a):
-            cid = len(calls) + 1
-            calls.append({"id": cid, "flav": "raw", "rust": expr})
-            meta[cid] = (a, name)
-    p = {"name": "c02probe", "cfg": project["cfg"], "files": project["files"], "calls": calls, "needs_ctx": True,
-         "extra_items": ""}
-    # the context must also be *provided* for use_i18n / use_i18n_scoped!
-    src = probe.main_source(p).replace("CTX.with(|c| c.set(Some(ctx)));", "CTX.with(|c| c.set(Some(ctx)));\n    provide_context(ctx);")
-    p["main"] = src
-    results, log = probe.build_and_run(run, [p], tag="_c02")
-    r = results["c02probe"]
-    if not r["built"]:
-        run.violation("build", "the probe calling every flavour with exactly the required arguments does not compile",
-                      {"build_log": r["build_log"] or log[-3000:]})
-        return run.finish("probe build failed")
     wd = os.path.join(run.workdir, "l2")
     os.makedirs(wd, exist_ok=True)
-    trace = []
-    for ev in r["events"]:
-        a, name = meta[ev["call"]]
-        trace.append({"ev": "Access", "flavour": name, "locale": a["locale"], "path": a["path"], "scope": a["scope"],
-                      "env": {k: probe.to_syms(v) for k, v in ENV.items()}, "count": a["count"],
-                      "outcome": ev["outcome"], "out": probe.to_syms(ev["out"])})
-    if len(trace) != len(calls):
-        raise vp.ToolError("probe printed %d of %d results: %s" % (len(trace), len(calls), r.get("stderr", "")[-300:]))
+    trace, calls, meta = [], [], {}
+    # two builds of the same project: translations baked in, and dynamic_load + ssr (string / display macros are futures there)
+    from checks.c17 import EMB_FEATURES
+    for build, feats in (("baked", None), ("dynamic_load", EMB_FEATURES + ['"interpolate_display"'])):
+        bcalls, bmeta = [], {}
+        for a in accesses:
+            for name, expr in flavours(a, dyn=(build == "dynamic_load")):
+                cid = len(bcalls) + 1
+                bcalls.append({"id": cid, "flav": "raw", "rust": expr})
+                bmeta[cid] = (a, name if build == "baked" else "dynamic_load:" + name)
+        pname = "c02probe" if build == "baked" else "c02dyn"
+        p = {"name": pname, "cfg": project["cfg"], "files": project["files"], "calls": bcalls, "needs_ctx": True, "extra_items": ""}
+        # the context must also be *provided* for use_i18n / use_i18n_scoped!
+        p["main"] = probe.main_source(p).replace("CTX.with(|c| c.set(Some(ctx)));", "CTX.with(|c| c.set(Some(ctx)));\n    provide_context(ctx);")
+        saved = probe.FEATURES
+        if feats:
+            probe.FEATURES = feats
+        try:
+            results, log = probe.build_and_run(run, [p], tag="_c02" + ("" if build == "baked" else "dyn"))
+        finally:
+            probe.FEATURES = saved
+        r = results[pname]
+        if not r["built"]:
+            run.violation("build;" + build, "the probe calling every flavour with exactly the required arguments does not compile (%s build)" % build,
+                          {"build_log": r["build_log"] or log[-3000:]})
+            return run.finish("probe build failed")
+        n0 = len(trace)
+        for ev in r["events"]:
+            a, name = bmeta[ev["call"]]
+            trace.append({"ev": "Access", "flavour": name, "locale": a["locale"], "path": a["path"], "scope": a["scope"],
+                          "env": {k: probe.to_syms(v) for k, v in ENV.items()}, "count": a["count"],
+                          "outcome": ev["outcome"], "out": probe.to_syms(ev["out"])})
+        if len(trace) - n0 != len(bcalls):
+            raise vp.ToolError("probe %s printed %d of %d results: %s" % (pname, len(trace) - n0, len(bcalls), r.get("stderr", "")[-300:]))
+        calls += bcalls
+        meta.update({len(meta) + k: v for k, v in bmeta.items()})
     trace.append({"ev": "End"})
     tpath = os.path.join(wd, "trace.ndjson")
     vp.write_ndjson(tpath, trace)
@@ -125,7 +152,7 @@ def check(run):
     run.assumptions = ["one project with keys of every kind (5 literal types, interpolation, components incl. nesting, u8 range, cardinal and ordinal plural, subkeys 3 deep), "
                        "3 locales, one of which leaves keys null (fallback to the default)",
                        "every split of the key path into scope prefix + rest, scoping chained and direct, for scope_locale!, scope_i18n!, use_i18n_scoped!",
-                       "dynamic_load (async) flavours are not part of this build"]
+                       "the same calls are made in a second build with dynamic_load + ssr, where the string / display macros return futures (driven with block_on); the const accessor chain does not exist there"]
     return run.finish("every (locale, key, count) x every flavour x every scoping; non-trivial: every call", {"distinct_nontrivial": len(calls)})
 
 
